@@ -177,6 +177,21 @@ def scripts_for(kind, quick):
                                 s.append(it)
                         s += [("cancel",), ("end",)]
                         out.append(s)
+        # the scan ended by cancellation (or by the command timeout) after every prefix of every order, then a further scan
+        seen = set()
+        for perm in itertools.permutations(base_items):
+            for cut in range(0, 4):
+                for ender in ("cancel", "tick"):
+                    for early in (False, True):
+                        pre = [(it[0], "ok") if it[0] == "resp" else ((it[0], True) if it[0] == "complete" else it) for it in perm[:cut]]
+                        key = (tuple(pre), ender, early)
+                        if key in seen or (ender == "tick" and any(x[0] == "resp" for x in pre)):
+                            continue              # a scan has no timeout of its own once the command was answered
+                        seen.add(key)
+                        s = ([("result", 10), ("complete", True)] if early else []) + [("start",)] + pre + [(ender,), ("end",)]
+                        s += [("result", 13), ("complete", True), ("end",)]          # late frames of the ended scan: nobody is left to take them
+                        s += [("start",), ("resp", "ok"), ("result", 14), ("complete", True), ("end",)]
+                        out.append(s)
         return out
     items = [("resp",), ("status", "M"), ("status", "O"), ("tick",)]
     match = "down" if kind == "leave" else "up"
